@@ -1288,4 +1288,1353 @@ theorem all_filterMap {α β : Type} (xs : List α) (f : α → Option β) (p : 
     simp only [List.filterMap_cons, List.all_cons]
     cases f x <;> simp [ih]
 
+/-! ## Values: validateCoercion against §5.6 -/
+
+theorem scalarAccepts_eq (sp : ScalarSpec) (v : Value) : Model.scalarAccepts sp v = Spec.scalarAccepts sp v := by
+  cases sp <;> cases v <;> rfl
+
+theorem namedTarget_true (t : TRef) : Model.namedTarget t true = .ok t.base := by
+  induction t with
+  | named n => rfl
+  | list t ih => simp [Model.namedTarget, ih, TRef.base]
+  | nonNull t ih => simp [Model.namedTarget, ih, TRef.base]
+
+theorem namedTarget_false (t : TRef) :
+    (∀ n, Model.namedTarget t false = .ok n ↔ t.nullable = .named n) ∧
+    ((∃ lt, Model.namedTarget t false = .error lt) ↔ ∀ n, t.nullable ≠ .named n) := by
+  induction t with
+  | named n => simp [Model.namedTarget, TRef.nullable]
+  | list t _ => simp [Model.namedTarget, TRef.nullable]
+  | nonNull t ih => simpa [Model.namedTarget, TRef.nullable] using ih
+
+/-- The named type that decides a non-list literal: the model's descent over the wrappers and the
+    specification's `literalTarget` agree. -/
+theorem namedTarget_literalTarget (t : TRef) (allow : Bool) :
+    (∀ n, Model.namedTarget t allow = .ok n ↔ Spec.literalTarget t allow = some n) ∧
+    ((∃ lt, Model.namedTarget t allow = .error lt) ↔ Spec.literalTarget t allow = none) := by
+  cases allow with
+  | true =>
+    simp [namedTarget_true, Spec.literalTarget]
+  | false =>
+    obtain ⟨h1, h2⟩ := namedTarget_false t
+    unfold Spec.literalTarget
+    simp only [Bool.false_eq_true, if_false]
+    constructor
+    · intro n
+      rw [h1 n]
+      cases t.nullable <;> simp
+    · rw [h2]
+      cases t.nullable <;> simp
+
+theorem nullable_ne_nonNull (t x : TRef) : t.nullable ≠ .nonNull x := by
+  induction t with
+  | named n => simp [TRef.nullable]
+  | list t _ => simp [TRef.nullable]
+  | nonNull t ih => simpa [TRef.nullable] using ih
+
+/-- Scalar / enum / non-object-for-input cases. -/
+theorem coerceNamed_nil (S : Schema) (n : String) (v : Value) :
+    coerceNamed S n v = [] ↔
+      (match Spec.kindOf S n with
+       | some (.scalar spec) => Spec.scalarAccepts spec v
+       | some (.enum vs) => (match v with
+                             | .enum e _ => vs.contains e
+                             | _ => false)
+       | _ => false) = true := by
+  unfold coerceNamed
+  have hk : Model.kindOf S n = Spec.kindOf S n := rfl
+  rw [hk]
+  cases hkk : Spec.kindOf S n with
+  | none => simp
+  | some k =>
+    cases k with
+    | scalar sp => simp [scalarAccepts_eq]
+    | enum vs => cases v <;> simp
+    | object => simp
+    | interface => simp
+    | union => simp
+    | input => simp
+
+
+theorem objFieldsOk_iff (S : Schema) (defs : List InputDef) (fields : List ObjField) :
+    Spec.objFieldsOk S defs fields = true ↔
+      ∀ f ∈ fields, ∃ d, findInput defs f.name = some d ∧ Spec.valueOk S d.type true f.value = true := by
+  induction fields with
+  | nil => simp [Spec.objFieldsOk]
+  | cons f rest ih =>
+    obtain ⟨n, p, v⟩ := f
+    simp only [Spec.objFieldsOk, Bool.and_eq_true, ih, List.mem_cons, forall_eq_or_imp, ObjField.name, ObjField.value]
+    cases findInput defs n <;> simp
+
+theorem itemsOk_iff (S : Schema) (t : TRef) (items : List Value) :
+    Spec.itemsOk S t items = true ↔ ∀ v ∈ items, Spec.valueOk S t false v = true := by
+  induction items with
+  | nil => simp [Spec.itemsOk]
+  | cons v rest ih => simp [Spec.itemsOk, ih]
+
+theorem ObjField.name_mk (n : String) (p : Pos) (v : Value) : (ObjField.mk n p v).name = n := rfl
+theorem ObjField.value_mk (n : String) (p : Pos) (v : Value) : (ObjField.mk n p v).value = v := rfl
+
+theorem mem_seenUpdate (seen : List String) (n m : String) :
+    m ∈ (if seen.contains n then seen else seen ++ [n]) ↔ (m ∈ seen ∨ m = n) := by
+  cases hsn : seen.contains n with
+  | true =>
+    simp only [if_true]
+    simp only [List.contains_eq_mem, decide_eq_true_eq] at hsn
+    constructor
+    · exact Or.inl
+    · rintro (h | h)
+      · exact h
+      · exact h ▸ hsn
+  | false => simp
+
+theorem errsUpdate_nil (seen : List String) (n : String) (errs : List Err) (e : Err) :
+    (if seen.contains n then errs ++ [e] else errs) = [] ↔ (errs = [] ∧ n ∉ seen) := by
+  cases hsn : seen.contains n with
+  | true =>
+    simp only [List.contains_eq_mem, decide_eq_true_eq] at hsn
+    simp [hsn]
+  | false =>
+    simp only [List.contains_eq_mem, decide_eq_false_iff_not] at hsn
+    simp [hsn]
+
+/-- The loop over the input object's field definitions (validate_values.go:78-84). -/
+theorem requiredFields_nil (p : Pos) (defs : List InputDef) (fields : List ObjField) (seen' : List String)
+    (hs : ∀ n, n ∈ seen' ↔ ∃ f ∈ fields, f.name = n) :
+    (defs.flatMap (fun d =>
+        if d.type.isNonNull && d.dflt = .none && !seen'.contains d.name then
+          [newError p ("the " ++ d.name ++ " field is required")]
+        else [])) = [] ↔
+      (defs.all fun d => !(d.type.isNonNull && d.dflt = .none) || fields.any (fun f => f.name = d.name)) = true := by
+  simp only [List.flatMap_eq_nil_iff, List.all_eq_true]
+  constructor
+  · intro h d hd
+    have := h d hd
+    cases hr : (d.type.isNonNull && decide (d.dflt = Dflt.none)) with
+    | false => simp
+    | true =>
+      simp only [Bool.not_true, Bool.false_or, List.any_eq_true, decide_eq_true_eq]
+      by_cases hm : d.name ∈ seen'
+      · exact (hs d.name).1 hm
+      · have hc : seen'.contains d.name = false := by simpa using hm
+        simp [hr, hc] at this
+        exact absurd this hm
+  · intro h d hd
+    have := h d hd
+    cases hr : (d.type.isNonNull && decide (d.dflt = Dflt.none)) with
+    | false => simp [hr]
+    | true =>
+      simp only [hr, Bool.not_true, Bool.false_or, List.any_eq_true, decide_eq_true_eq] at this
+      have hm : d.name ∈ seen' := (hs d.name).2 this
+      have hc : seen'.contains d.name = true := by simpa using hm
+      simp [hr, hc]
+      exact hm
+
+/-- What the field loop of the input-object case computes. -/
+def FieldsSpec (S : Schema) (defs : List InputDef) (fields : List ObjField) (errs : List Err) (seen : List String)
+    (r : Sum (List Err) (List Err × List String)) : Prop :=
+  match r with
+  | .inl nested => nested ≠ [] ∧ Spec.objFieldsOk S defs fields = false
+  | .inr (errs', seen') =>
+    (errs' = [] ↔ (errs = [] ∧ (∀ f ∈ fields, f.name ∉ seen) ∧ Spec.nodup (fields.map (·.name)) = true ∧
+        ∀ f ∈ fields, (findInput defs f.name).isSome = true)) ∧
+    (∀ n, n ∈ seen' ↔ (n ∈ seen ∨ ∃ f ∈ fields, f.name = n)) ∧
+    (∀ f ∈ fields, ∀ d, findInput defs f.name = some d → Spec.valueOk S d.type true f.value = true)
+
+mutual
+theorem coercion_nil (S : Schema) : ∀ (v : Value) (t : TRef) (allow : Bool),
+    validateCoercion S t allow v = [] ↔ Spec.valueOk S t allow v = true
+  | .var n p, t, allow => by simp [validateCoercion, Spec.valueOk]
+  | .null p, t, allow => by
+    cases h : t.isNonNull <;> simp [validateCoercion, Spec.valueOk, h]
+  | .list items p, t, allow => by
+    unfold validateCoercion Spec.valueOk
+    cases hn : t.nullable with
+    | list inner => simp only [coerceItems_nil S items inner]
+    | named n =>
+      simp only [coerceNamed_nil]
+      cases Spec.kindOf S n with
+      | none => simp
+      | some k => cases k <;> simp
+    | nonNull x => exact absurd hn (nullable_ne_nonNull t x)
+  | .obj fields p, t, allow => by
+    unfold validateCoercion Spec.valueOk
+    obtain ⟨h1, h2⟩ := namedTarget_literalTarget t allow
+    cases hnt : Model.namedTarget t allow with
+    | error lt =>
+      have := h2.1 ⟨lt, hnt⟩
+      simp [this]
+    | ok n =>
+      have hl := (h1 n).1 hnt
+      simp only [hl]
+      have hk : Model.kindOf S n = Spec.kindOf S n := rfl
+      rw [hk]
+      cases hkk : Spec.kindOf S n with
+      | none => simp [coerceNamed_nil, hkk]
+      | some k =>
+        cases k with
+        | input defs =>
+          simp only
+          have hcf := coerceFields_spec S fields n defs [] []
+          cases hr : coerceFields S n defs fields [] [] with
+          | inl nested =>
+            rw [hr] at hcf
+            simp only [FieldsSpec] at hcf
+            simp [hcf.1, hcf.2]
+          | inr pr =>
+            obtain ⟨errs', seen'⟩ := pr
+            rw [hr] at hcf
+            simp only [FieldsSpec, List.not_mem_nil, not_false_eq_true, implies_true, true_and, false_or] at hcf
+            obtain ⟨he, hs, hv⟩ := hcf
+            have hs' : ∀ m, m ∈ seen' ↔ ∃ f ∈ fields, f.name = m := hs
+            rw [List.append_eq_nil_iff, he, requiredFields_nil p defs fields seen' hs']
+            simp only [Bool.and_eq_true, objFieldsOk_iff]
+            constructor
+            · rintro ⟨⟨hnd, hkn⟩, hreq⟩
+              refine ⟨⟨hnd, hreq⟩, fun f hf => ?_⟩
+              have := hkn f hf
+              cases hfi : findInput defs f.name with
+              | none => simp [hfi] at this
+              | some d => exact ⟨d, rfl, hv f hf d hfi⟩
+            · rintro ⟨⟨hnd, hreq⟩, hok⟩
+              refine ⟨⟨hnd, fun f hf => ?_⟩, hreq⟩
+              obtain ⟨d, hd, _⟩ := hok f hf
+              simp [hd]
+        | scalar sp => simp [coerceNamed_nil, hkk]
+        | enum vs => simp [coerceNamed_nil, hkk]
+        | object => simp [coerceNamed_nil, hkk]
+        | interface => simp [coerceNamed_nil, hkk]
+        | union => simp [coerceNamed_nil, hkk]
+  | .enum e p, t, allow => by
+    unfold validateCoercion Spec.valueOk
+    obtain ⟨h1, h2⟩ := namedTarget_literalTarget t allow
+    cases hnt : Model.namedTarget t allow with
+    | error lt => simp [h2.1 ⟨lt, hnt⟩]
+    | ok n =>
+      simp only [(h1 n).1 hnt, coerceNamed_nil]
+      cases Spec.kindOf S n with
+      | none => simp
+      | some k => cases k <;> simp
+  | .int lit p, t, allow => by
+    unfold validateCoercion Spec.valueOk
+    obtain ⟨h1, h2⟩ := namedTarget_literalTarget t allow
+    cases hnt : Model.namedTarget t allow with
+    | error lt => simp [h2.1 ⟨lt, hnt⟩]
+    | ok n =>
+      simp only [(h1 n).1 hnt, coerceNamed_nil]
+      cases Spec.kindOf S n with
+      | none => simp
+      | some k => cases k <;> simp
+  | .float lit p, t, allow => by
+    unfold validateCoercion Spec.valueOk
+    obtain ⟨h1, h2⟩ := namedTarget_literalTarget t allow
+    cases hnt : Model.namedTarget t allow with
+    | error lt => simp [h2.1 ⟨lt, hnt⟩]
+    | ok n =>
+      simp only [(h1 n).1 hnt, coerceNamed_nil]
+      cases Spec.kindOf S n with
+      | none => simp
+      | some k => cases k <;> simp
+  | .str s p, t, allow => by
+    unfold validateCoercion Spec.valueOk
+    obtain ⟨h1, h2⟩ := namedTarget_literalTarget t allow
+    cases hnt : Model.namedTarget t allow with
+    | error lt => simp [h2.1 ⟨lt, hnt⟩]
+    | ok n =>
+      simp only [(h1 n).1 hnt, coerceNamed_nil]
+      cases Spec.kindOf S n with
+      | none => simp
+      | some k => cases k <;> simp
+  | .bool b p, t, allow => by
+    unfold validateCoercion Spec.valueOk
+    obtain ⟨h1, h2⟩ := namedTarget_literalTarget t allow
+    cases hnt : Model.namedTarget t allow with
+    | error lt => simp [h2.1 ⟨lt, hnt⟩]
+    | ok n =>
+      simp only [(h1 n).1 hnt, coerceNamed_nil]
+      cases Spec.kindOf S n with
+      | none => simp
+      | some k => cases k <;> simp
+theorem coerceItems_nil (S : Schema) : ∀ (items : List Value) (t : TRef),
+    coerceItems S t items = [] ↔ Spec.itemsOk S t items = true
+  | [], t => by simp [coerceItems, Spec.itemsOk]
+  | v :: rest, t => by
+    unfold coerceItems Spec.itemsOk
+    have hv := coercion_nil S v t false
+    cases hc : validateCoercion S t false v with
+    | nil =>
+      have := hv.1 hc
+      simp [this, coerceItems_nil S rest t]
+    | cons e es =>
+      have : Spec.valueOk S t false v = false := by
+        cases hvo : Spec.valueOk S t false v with
+        | false => rfl
+        | true => have := hv.2 hvo; simp [hc] at this
+      simp [this]
+theorem coerceFields_spec (S : Schema) : ∀ (fields : List ObjField) (tn : String) (defs : List InputDef)
+    (errs : List Err) (seen : List String),
+    FieldsSpec S defs fields errs seen (coerceFields S tn defs fields errs seen)
+  | [], tn, defs, errs, seen => by
+    simp [coerceFields, FieldsSpec, Spec.nodup]
+  | .mk n p v :: rest, tn, defs, errs, seen => by
+    unfold coerceFields
+    cases hfi : findInput defs n with
+    | none =>
+      -- unknown field: an error is recorded and the loop goes on
+      have ih := coerceFields_spec S rest tn defs
+        ((if seen.contains n then errs ++ [newError p "duplicate field"] else errs) ++
+          [newError p ("field does not exist on " ++ tn)])
+        (if seen.contains n then seen else seen ++ [n])
+      simp only
+      cases hr : coerceFields S tn defs rest _ _ with
+      | inl nested =>
+        rw [hr] at ih
+        simp only [FieldsSpec] at ih ⊢
+        refine ⟨ih.1, ?_⟩
+        simp [Spec.objFieldsOk, hfi]
+      | inr pr =>
+        obtain ⟨errs', seen'⟩ := pr
+        rw [hr] at ih
+        simp only [FieldsSpec] at ih ⊢
+        obtain ⟨he, hs, hv⟩ := ih
+        refine ⟨?_, ?_, ?_⟩
+        · rw [he]
+          simp [ObjField.name_mk, hfi]
+        · intro m
+          rw [hs m, mem_seenUpdate]
+          simp only [List.mem_cons, exists_eq_or_imp, ObjField.name_mk]
+          constructor
+          · rintro ((h | h) | h)
+            · exact Or.inl h
+            · exact Or.inr (Or.inl h.symm)
+            · exact Or.inr (Or.inr h)
+          · rintro (h | h | h)
+            · exact Or.inl (Or.inl h)
+            · exact Or.inl (Or.inr h.symm)
+            · exact Or.inr h
+        · intro f hf d hd
+          simp only [List.mem_cons] at hf
+          rcases hf with rfl | hf
+          · simp [ObjField.name_mk, hfi] at hd
+          · exact hv f hf d hd
+    | some d =>
+      simp only
+      have hv := coercion_nil S v d.type true
+      cases hc : validateCoercion S d.type true v with
+      | cons e es =>
+        simp only [FieldsSpec]
+        refine ⟨by simp, ?_⟩
+        have : Spec.valueOk S d.type true v = false := by
+          cases hvo : Spec.valueOk S d.type true v with
+          | false => rfl
+          | true => have := hv.2 hvo; simp [hc] at this
+        simp [Spec.objFieldsOk, hfi, this]
+      | nil =>
+        have hvo := hv.1 hc
+        have ih := coerceFields_spec S rest tn defs
+          (if seen.contains n then errs ++ [newError p "duplicate field"] else errs)
+          (if seen.contains n then seen else seen ++ [n])
+        cases hr : coerceFields S tn defs rest _ _ with
+        | inl nested =>
+          rw [hr] at ih
+          simp only [FieldsSpec] at ih ⊢
+          refine ⟨ih.1, ?_⟩
+          simp [Spec.objFieldsOk, hfi, hvo, ih.2]
+        | inr pr =>
+          obtain ⟨errs', seen'⟩ := pr
+          rw [hr] at ih
+          simp only [FieldsSpec] at ih ⊢
+          obtain ⟨he, hs, hvs⟩ := ih
+          refine ⟨?_, ?_, ?_⟩
+          · rw [he, errsUpdate_nil]
+            simp only [mem_seenUpdate]
+            simp only [nodup_cons, List.map_cons, ObjField.name_mk, List.mem_cons, forall_eq_or_imp, hfi,
+              Option.isSome_some, true_and, Bool.and_eq_true, Bool.not_eq_true', not_or,
+              List.contains_eq_mem, List.mem_map, decide_eq_false_iff_not, not_exists, not_and]
+            constructor
+            · rintro ⟨⟨h1, hsn⟩, h2, h3, h4⟩
+              exact ⟨h1, ⟨hsn, fun f hf => (h2 f hf).1⟩, ⟨fun f hf he' => (h2 f hf).2 he', h3⟩, h4⟩
+            · rintro ⟨h1, ⟨hsn, h2⟩, ⟨h3, h4⟩, h5⟩
+              exact ⟨⟨h1, hsn⟩, fun f hf => ⟨h2 f hf, fun he' => h3 f hf he'⟩, h4, h5⟩
+          · intro m
+            rw [hs m, mem_seenUpdate]
+            simp only [List.mem_cons, exists_eq_or_imp, ObjField.name_mk]
+            constructor
+            · rintro ((h | h) | h)
+              · exact Or.inl h
+              · exact Or.inr (Or.inl h.symm)
+              · exact Or.inr (Or.inr h)
+            · rintro (h | h | h)
+              · exact Or.inl (Or.inl h)
+              · exact Or.inl (Or.inr h.symm)
+              · exact Or.inr h
+          · intro f hf d' hd'
+            simp only [List.mem_cons] at hf
+            rcases hf with rfl | hf
+            · simp only [ObjField.name_mk, ObjField.value_mk, hfi, Option.some.injEq] at hd' ⊢
+              subst hd'
+              exact hvo
+            · exact hvs f hf d' hd'
+end
+
+
+/-! Every error of validateCoercion is primary. -/
+
+def AllPrimary (es : List Err) : Prop := ∀ e ∈ es, e.secondary = false
+
+theorem allPrimary_nil : AllPrimary [] := by simp [AllPrimary]
+theorem allPrimary_single (p : Pos) (m : String) : AllPrimary [newError p m] := by simp [AllPrimary, newError]
+theorem allPrimary_append {a b : List Err} (ha : AllPrimary a) (hb : AllPrimary b) : AllPrimary (a ++ b) := by
+  intro e he
+  simp only [List.mem_append] at he
+  rcases he with he | he
+  · exact ha e he
+  · exact hb e he
+
+theorem coerceNamed_primary (S : Schema) (n : String) (v : Value) : AllPrimary (coerceNamed S n v) := by
+  unfold coerceNamed
+  cases Model.kindOf S n with
+  | none => exact allPrimary_single _ _
+  | some k =>
+    cases k with
+    | scalar sp =>
+      simp only
+      split
+      · exact allPrimary_nil
+      · exact allPrimary_single _ _
+    | enum vs =>
+      cases v <;> simp only <;> first | exact allPrimary_single _ _ | (split <;> first | exact allPrimary_nil | exact allPrimary_single _ _)
+    | input => exact allPrimary_single _ _
+    | object => exact allPrimary_single _ _
+    | interface => exact allPrimary_single _ _
+    | union => exact allPrimary_single _ _
+
+theorem targetCase_primary (S : Schema) (t : TRef) (allow : Bool) (v : Value) :
+    AllPrimary (match Model.namedTarget t allow with
+      | .error lt => [newError v.pos ("cannot coerce to " ++ lt.toString)]
+      | .ok n => coerceNamed S n v) := by
+  cases Model.namedTarget t allow with
+  | error lt => exact allPrimary_single _ _
+  | ok n => exact coerceNamed_primary S n v
+
+mutual
+theorem coercion_primary (S : Schema) : ∀ (v : Value) (t : TRef) (allow : Bool),
+    AllPrimary (validateCoercion S t allow v)
+  | .var n p, t, allow => by simp [validateCoercion, AllPrimary]
+  | .null p, t, allow => by
+    unfold validateCoercion
+    split
+    · exact allPrimary_single _ _
+    · exact allPrimary_nil
+  | .list items p, t, allow => by
+    unfold validateCoercion
+    cases t.nullable with
+    | list inner => exact coerceItems_primary S items inner
+    | named n => exact coerceNamed_primary S n _
+    | nonNull x => exact allPrimary_single _ _
+  | .obj fields p, t, allow => by
+    unfold validateCoercion
+    cases Model.namedTarget t allow with
+    | error lt => exact allPrimary_single _ _
+    | ok n =>
+      simp only
+      cases hk : Model.kindOf S n with
+      | none => simp only [hk]; exact coerceNamed_primary S n _
+      | some k =>
+        cases k with
+        | input defs =>
+          simp only
+          have := coerceFields_primary S fields n defs [] [] allPrimary_nil
+          cases hr : coerceFields S n defs fields [] [] with
+          | inl nested => rw [hr] at this; exact this
+          | inr pr =>
+            obtain ⟨errs', seen'⟩ := pr
+            rw [hr] at this
+            simp only
+            apply allPrimary_append this
+            intro e he
+            simp only [List.mem_flatMap] at he
+            obtain ⟨d, _, hd⟩ := he
+            split at hd
+            · simp only [List.mem_singleton] at hd; subst hd; rfl
+            · simp at hd
+        | scalar sp => exact coerceNamed_primary S n _
+        | enum vs => exact coerceNamed_primary S n _
+        | object => exact coerceNamed_primary S n _
+        | interface => exact coerceNamed_primary S n _
+        | union => exact coerceNamed_primary S n _
+  | .enum e p, t, allow => by unfold validateCoercion; exact targetCase_primary S t allow _
+  | .int lit p, t, allow => by unfold validateCoercion; exact targetCase_primary S t allow _
+  | .float lit p, t, allow => by unfold validateCoercion; exact targetCase_primary S t allow _
+  | .str s p, t, allow => by unfold validateCoercion; exact targetCase_primary S t allow _
+  | .bool b p, t, allow => by unfold validateCoercion; exact targetCase_primary S t allow _
+theorem coerceItems_primary (S : Schema) : ∀ (items : List Value) (t : TRef),
+    AllPrimary (coerceItems S t items)
+  | [], t => by simp [coerceItems, AllPrimary]
+  | v :: rest, t => by
+    unfold coerceItems
+    have hv := coercion_primary S v t false
+    cases hc : validateCoercion S t false v with
+    | nil => exact coerceItems_primary S rest t
+    | cons e es => rw [hc] at hv; exact hv
+theorem coerceFields_primary (S : Schema) : ∀ (fields : List ObjField) (tn : String) (defs : List InputDef)
+    (errs : List Err) (seen : List String), AllPrimary errs →
+    (match coerceFields S tn defs fields errs seen with
+     | .inl nested => AllPrimary nested
+     | .inr (errs', _) => AllPrimary errs')
+  | [], tn, defs, errs, seen, h => by simpa [coerceFields] using h
+  | .mk n p v :: rest, tn, defs, errs, seen, h => by
+    unfold coerceFields
+    have herrs : AllPrimary (if seen.contains n then errs ++ [newError p "duplicate field"] else errs) := by
+      split
+      · exact allPrimary_append h (allPrimary_single _ _)
+      · exact h
+    cases hfi : findInput defs n with
+    | none =>
+      exact coerceFields_primary S rest tn defs _ _ (allPrimary_append herrs (allPrimary_single _ _))
+    | some d =>
+      simp only
+      have hv := coercion_primary S v d.type true
+      cases hc : validateCoercion S d.type true v with
+      | nil => exact coerceFields_primary S rest tn defs _ _ herrs
+      | cons e es => rw [hc] at hv; exact hv
+end
+
+theorem primaryFree_of_allPrimary {es : List Err} (h : AllPrimary es) : primaryFree es = es.isEmpty := by
+  cases es with
+  | nil => rfl
+  | cons e rest =>
+    have := h e (by simp)
+    simp [primaryFree, this]
+
+/-- validateCoercion: no primary error iff the value has the expected type (§5.6.1 – §5.6.4). -/
+theorem coercion_ok (S : Schema) (v : Value) (t : TRef) (allow : Bool) :
+    primaryFree (validateCoercion S t allow v) = Spec.valueOk S t allow v := by
+  rw [primaryFree_of_allPrimary (coercion_primary S v t allow), Bool.eq_iff_iff, List.isEmpty_iff]
+  exact coercion_nil S v t allow
+
+/-! ## Values: the traversal -/
+
+def valuesOcc (S : Schema) : Occ → List Err
+  | .field scope _ n _ args dirs _ =>
+    valuesArgs S (fieldArgCtx ((Model.fieldDefinition S scope n).map (·.args))) args ++ valuesDirectives S dirs
+  | .spread _ _ _ dirs _ => valuesDirectives S dirs
+  | .inline _ _ dirs _ => valuesDirectives S dirs
+
+mutual
+theorem values_sel_flat (S : Schema) : ∀ (scope : Option String) (sel : Selection),
+    valuesSel S scope sel = (moccSel S scope sel).flatMap (valuesOcc S)
+  | scope, .field al n np args dirs none => by simp [valuesSel, moccSel, valuesOcc]
+  | scope, .field al n np args dirs (some ss) => by
+    simp [valuesSel, moccSel, valuesOcc, values_set_flat S (Model.innerScope S scope n) ss]
+  | scope, .spread n np dirs p => by simp [valuesSel, moccSel, valuesOcc]
+  | scope, .inline tc dirs ss p => by
+    simp [valuesSel, moccSel, valuesOcc, values_set_flat S (Model.inlineScope S scope tc) ss]
+theorem values_set_flat (S : Schema) : ∀ (scope : Option String) (ss : SelSet),
+    valuesSet S scope ss = (moccSet S scope ss).flatMap (valuesOcc S)
+  | scope, .mk sels p => by simp [valuesSet, moccSet, values_sels_flat S scope sels]
+theorem values_sels_flat (S : Schema) : ∀ (scope : Option String) (sels : List Selection),
+    valuesSels S scope sels = (moccSels S scope sels).flatMap (valuesOcc S)
+  | scope, [] => by simp [valuesSels, moccSels]
+  | scope, s :: rest => by
+    simp [valuesSels, moccSels, values_sel_flat S scope s, values_sels_flat S scope rest]
+end
+
+/-- The callback of validateValues at one argument value whose expected type comes from `defs`. -/
+theorem valueNode_ok (S : Schema) (defs : List InputDef) (locd : Bool) (a : Argument) (args : List Argument) :
+    primaryFree (valueNode S { exp := (findInput defs a.name).map (·.type), locDefault := locd } a.value) =
+      Spec.argValueOk S { defs := defs, args := args } a := by
+  unfold valueNode Spec.argValueOk
+  cases hv : a.value.isVar with
+  | true =>
+    simp only [if_true]
+    cases a with
+    | mk n p v =>
+      cases v <;> simp [Value.isVar] at hv
+      cases findInput defs n <;> simp [primaryFree, Spec.valueOk]
+  | false =>
+    simp only [Bool.false_eq_true, if_false]
+    cases findInput defs a.name with
+    | none => simp [primaryFree, newSecondaryError]
+    | some d => simp [coercion_ok]
+
+theorem fieldArgCtx_exp (defs : List InputDef) (n : String) :
+    (fieldArgCtx (some defs) n).exp = (findInput defs n).map (·.type) := by
+  unfold fieldArgCtx
+  cases h : findInput defs n <;> simp [noCtx, h]
+
+theorem inputCtx_exp (defs : List InputDef) (n : String) :
+    (inputCtx (some defs) n).exp = (findInput defs n).map (·.type) := by
+  unfold inputCtx
+  cases h : findInput defs n <;> simp [noCtx, h]
+
+theorem valueNode_exp (S : Schema) (c c' : VCtx) (v : Value) (h : c.exp = c'.exp) :
+    valueNode S c v = valueNode S c' v := by
+  unfold valueNode; rw [h]
+
+theorem valuesArgs_field_ok (S : Schema) (defs : List InputDef) (args : List Argument) :
+    primaryFree (valuesArgs S (fieldArgCtx (some defs)) args) = Spec.siteValuesOk S { defs := defs, args := args } := by
+  unfold valuesArgs Spec.siteValuesOk
+  rw [primaryFree_flatMap]
+  apply all_congr_mem
+  intro a _
+  rw [valueNode_exp S _ { exp := (findInput defs a.name).map (·.type), locDefault := false } _ (fieldArgCtx_exp defs a.name)]
+  exact valueNode_ok S defs false a args
+
+theorem valuesArgs_input_ok (S : Schema) (defs : List InputDef) (args : List Argument) :
+    primaryFree (valuesArgs S (inputCtx (some defs)) args) = Spec.siteValuesOk S { defs := defs, args := args } := by
+  unfold valuesArgs Spec.siteValuesOk
+  rw [primaryFree_flatMap]
+  apply all_congr_mem
+  intro a _
+  rw [valueNode_exp S _ { exp := (findInput defs a.name).map (·.type), locDefault := false } _ (inputCtx_exp defs a.name)]
+  exact valueNode_ok S defs false a args
+
+theorem valuesArgs_none (S : Schema) (args : List Argument) :
+    primaryFree (valuesArgs S (fieldArgCtx none) args) = true ∧ primaryFree (valuesArgs S (inputCtx none) args) = true := by
+  unfold valuesArgs
+  constructor <;>
+  · rw [primaryFree_flatMap, List.all_eq_true]
+    intro a _
+    unfold valueNode
+    cases a.value.isVar <;> simp [fieldArgCtx, inputCtx, noCtx, primaryFree, newSecondaryError]
+
+theorem valuesDirectives_ok (S : Schema) (dirs : List Directive) :
+    primaryFree (valuesDirectives S dirs) = (Spec.dirArgSites S dirs).all (Spec.siteValuesOk S) := by
+  unfold valuesDirectives Spec.dirArgSites
+  induction dirs with
+  | nil => rfl
+  | cons d rest ih =>
+    simp only [List.flatMap_cons, primaryFree_append, List.filterMap_cons, ih]
+    cases hf : S.findDirective d.name with
+    | none => simp [(valuesArgs_none S d.args).2]
+    | some dd => simp [valuesArgs_input_ok]
+
+theorem siteValuesOk_nil_defs (S : Schema) (args : List Argument) :
+    Spec.siteValuesOk S { defs := [], args := args } = true := by
+  simp [Spec.siteValuesOk, Spec.argValueOk, findInput]
+
+theorem valuesOcc_ok {S : Schema} (hwf : S.wf = true) {o : Occ} (hinv : Inv S (occParent o))
+    (hs : scopedAt S o = true) :
+    primaryFree (valuesOcc S o) = (Spec.occArgSites S o).all (Spec.siteValuesOk S) := by
+  cases o with
+  | field parent al n np args dirs sel =>
+    obtain ⟨p, hp', hp⟩ := hinv
+    simp only [occParent] at hp'
+    subst hp'
+    simp only [scopedAt, Bool.and_eq_true, fieldDefinedAt, hp, Bool.not_true, Bool.false_or] at hs
+    have hdef := hs.1.1.1
+    have hagree := fieldDef_agree hwf hp n
+    have htn := fieldDefinition_typename hwf (some p)
+    simp only [valuesOcc, Spec.occArgSites, primaryFree_append, List.all_append, valuesDirectives_ok, Spec.occDirs]
+    congr 1
+    cases hd : Spec.fieldDef? S p n with
+    | none => simp [hd] at hdef
+    | some d =>
+      simp only [List.all_cons, List.all_nil, Bool.and_true]
+      by_cases hn : n = "__typename"
+      · subst hn
+        simp only [if_true] at hagree
+        rw [hd] at hagree
+        simp only [Option.some.injEq] at hagree
+        subst hagree
+        simp [htn, (valuesArgs_none S args).1, Spec.typenameField, siteValuesOk_nil_defs]
+      · simp only [hn, if_false] at hagree
+        rw [hd] at hagree
+        rw [← hagree]
+        simp only [Option.map_some]
+        exact valuesArgs_field_ok S d.args args
+  | spread parent n np dirs p =>
+    simp [valuesOcc, Spec.occArgSites, valuesDirectives_ok, Spec.occDirs]
+  | inline parent tc dirs p =>
+    simp [valuesOcc, Spec.occArgSites, valuesDirectives_ok, Spec.occDirs]
+
+theorem schemaType_eq_resolveType (S : Schema) (t : TypeExpr) : Model.schemaType S t = Spec.resolveType S t := by
+  induction t with
+  | named n p =>
+    simp only [Model.schemaType, Spec.resolveType, namedType_eq_condScope, Spec.condScope]
+    cases (S.find n).isSome <;> simp
+  | list t p ih => simp [Model.schemaType, Spec.resolveType, ih]
+  | nonNull t ih => simp [Model.schemaType, Spec.resolveType, ih]
+
+theorem defaultValueErrors_ok (S : Schema) (vars : List VarDef) :
+    primaryFree (defaultValueErrors S vars) = vars.all (Spec.defaultOk S) := by
+  unfold defaultValueErrors
+  rw [primaryFree_flatMap]
+  apply all_congr_mem
+  intro vd _
+  unfold Spec.defaultOk
+  cases hd : vd.dflt with
+  | none => simp [primaryFree]
+  | some v =>
+    simp only [schemaType_eq_resolveType]
+    unfold valueNode
+    cases hv : v.isVar with
+    | true =>
+      cases v <;> simp [Value.isVar] at hv
+      cases Spec.resolveType S vd.type <;> simp [primaryFree, Spec.valueOk]
+    | false =>
+      simp only [Bool.false_eq_true, if_false]
+      cases Spec.resolveType S vd.type with
+      | none => simp [primaryFree, newSecondaryError]
+      | some t => simp [coercion_ok]
+
+theorem varDefsOf_eq (d : Definition) : Model.varDefsOf d = Spec.varDefsOf d := by cases d <;> rfl
+theorem defDirs_eq (d : Definition) : Model.defDirs d = Spec.defDirs d := by cases d <;> rfl
+
+/-! ## Operations (validate_operations.go) -/
+
+theorem unsupported_nil (x : Option String) (p : Pos) :
+    ((if x.isNone then [newError p "unsupported operation type"] else []) = []) ↔ x.isSome = true := by
+  cases x <;> simp
+
+theorem operationLoop_nil (S : Schema) (seen : List String) (D : List Definition) :
+    operationLoopErrors S seen D = [] ↔
+      ((∀ n ∈ Spec.opNames D, n ∉ seen) ∧ Spec.nodup (Spec.opNames D) = true ∧ D.all (Spec.opSupportedAt S) = true) := by
+  induction D generalizing seen with
+  | nil => simp [operationLoopErrors, Spec.opNames, Spec.nodup]
+  | cons d rest ih =>
+    cases d with
+    | frag n np tc tcp dirs sel p =>
+      simp only [operationLoopErrors, ih, Spec.opNames, List.filterMap_cons, List.all_cons, Spec.opSupportedAt,
+        Bool.true_and]
+    | op kind name vars dirs sel =>
+      cases name with
+      | none =>
+        simp only [operationLoopErrors, List.append_eq_nil_iff, ih, Spec.opNames, List.filterMap_cons,
+          List.all_cons, Spec.opSupportedAt, Bool.and_eq_true, true_and]
+        cases h : (Model.opScope S kind).isNone with
+        | true =>
+          have : (S.root (opKindOf kind)).isSome = false := by
+            simp only [Model.opScope] at h; cases hr : S.root (opKindOf kind) <;> simp [hr] at h ⊢
+          simp [this]
+        | false =>
+          have : (S.root (opKindOf kind)).isSome = true := by
+            simp only [Model.opScope] at h; cases hr : S.root (opKindOf kind) <;> simp [hr] at h ⊢
+          simp [this]
+      | some np =>
+        obtain ⟨n, p⟩ := np
+        simp only [operationLoopErrors, List.append_eq_nil_iff, ih, Spec.opNames, List.filterMap_cons,
+          List.all_cons, Spec.opSupportedAt, Bool.and_eq_true, nodup_cons, List.mem_cons, forall_eq_or_imp,
+          Bool.not_eq_true']
+        have hsup : ((if (Model.opScope S kind).isNone then [newError (opPos kind sel) "unsupported operation type"] else []) = [])
+            ↔ (S.root (opKindOf kind)).isSome = true := unsupported_nil _ _
+        rw [hsup]
+        by_cases hs : n ∈ seen
+        · simp [hs]
+        · simp only [List.contains_eq_mem, hs, decide_false, Bool.false_eq_true, if_false, true_and,
+            not_false_eq_true, List.mem_append, List.mem_singleton, not_or, decide_eq_false_iff_not]
+          constructor
+          · rintro ⟨h1, h2, h3, h4⟩
+            exact ⟨fun m hm => (h2 m hm).1, ⟨fun hm => (h2 n hm).2 rfl, h3⟩, h1, h4⟩
+          · rintro ⟨h1, ⟨h2, h3⟩, h4, h5⟩
+            exact ⟨h4, fun m hm => ⟨h1 m hm, fun he => h2 (he ▸ hm)⟩, h3, h5⟩
+
+theorem anonymousCount_eq (D : Document) : Model.anonymousCount D = Spec.anonCount D := by
+  unfold Spec.anonCount
+  induction D with
+  | nil => rfl
+  | cons d rest ih =>
+    cases d with
+    | frag => simpa [Model.anonymousCount, List.filter_cons] using ih
+    | op kind name vars dirs sel =>
+      cases name with
+      | none => simp [Model.anonymousCount, List.filter_cons, ih]
+      | some np => simpa [Model.anonymousCount, List.filter_cons] using ih
+
+theorem opDefs_length (D : Document) : (Model.opDefs D).length = Spec.opCount D := rfl
+
+theorem anon_le_ops (D : Document) : Spec.anonCount D ≤ Spec.opCount D := by
+  unfold Spec.anonCount Spec.opCount
+  induction D with
+  | nil => simp
+  | cons d rest ih =>
+    cases d with
+    | frag => simpa [List.filter_cons] using ih
+    | op kind name vars dirs sel =>
+      cases name <;> simp [List.filter_cons] <;> omega
+
+theorem opDefs_all_op (D : Document) : ∀ d ∈ Model.opDefs D, ∃ k n v ds s, d = Definition.op k n v ds s := by
+  intro d hd
+  unfold Model.opDefs at hd
+  simp only [List.mem_filter] at hd
+  cases d with
+  | op k n v ds s => exact ⟨k, n, v, ds, s, rfl⟩
+  | frag => simp at hd
+
+theorem loneAnonymous_nil (D : Document) :
+    loneAnonymousErrors D = [] ↔ Spec.loneAnonymous D = true := by
+  unfold loneAnonymousErrors Spec.loneAnonymous
+  rw [anonymousCount_eq, ← opDefs_length]
+  have hle := anon_le_ops D
+  rw [← opDefs_length] at hle
+  by_cases h0 : Spec.anonCount D = 0
+  · simp [h0]
+  · have hpos : Spec.anonCount D > 0 := Nat.pos_of_ne_zero h0
+    simp only [hpos, if_true, h0, decide_false, Bool.false_or, decide_eq_true_eq]
+    cases hd : Model.opDefs D with
+    | nil => rw [hd] at hle; simp at hle; omega
+    | cons d1 rest1 =>
+      cases rest1 with
+      | nil => simp
+      | cons d2 rest2 =>
+        obtain ⟨k, n, v, ds, s, rfl⟩ := opDefs_all_op D d2 (by rw [hd]; simp)
+        simp
+
+/-! ## Variables: definitions (validate_variables.go:21-36) -/
+
+abbrev varTypeOk := Spec.variableTypeOk
+
+theorem isInputRef_eq (S : Schema) (t : TRef) : Model.isInputRef S t = Spec.isInputType S t.base := rfl
+
+theorem ite_nil_iff (b : Bool) (e : Err) : ((if b = true then [] else [e]) = []) ↔ b = true := by
+  cases b <;> simp
+
+theorem variableTypeErrors_nil (S : Schema) (vd : VarDef) :
+    variableTypeErrors S vd = [] ↔ Spec.variableTypeOk S vd = true := by
+  unfold variableTypeErrors Spec.variableTypeOk
+  rw [schemaType_eq_resolveType]
+  cases Spec.resolveType S vd.type with
+  | none => simp
+  | some t =>
+    simp only [isInputRef_eq]
+    exact ite_nil_iff _ _
+
+theorem variableDefErrors_nil (S : Schema) (seen : List String) (vars : List VarDef) :
+    variableDefErrors S seen vars = [] ↔
+      ((∀ vd ∈ vars, vd.name ∉ seen) ∧ Spec.nodup (vars.map (·.name)) = true ∧ vars.all (varTypeOk S) = true) := by
+  induction vars generalizing seen with
+  | nil => simp [variableDefErrors, Spec.nodup]
+  | cons vd rest ih =>
+    simp only [variableDefErrors, List.append_eq_nil_iff, ih, variableTypeErrors_nil]
+    by_cases hs : vd.name ∈ seen
+    · simp [hs]
+    · simp only [List.contains_eq_mem, hs, decide_false, Bool.false_eq_true, if_false, true_and,
+        nodup_cons, List.map_cons, List.mem_cons, forall_eq_or_imp, not_false_eq_true, List.all_cons,
+        Bool.and_eq_true, Bool.not_eq_true', List.mem_append, List.mem_singleton, not_or, List.mem_map,
+        decide_eq_false_iff_not, not_exists, not_and, List.not_mem_nil, or_false]
+      constructor
+      · rintro ⟨h1, h2, h3, h4⟩
+        exact ⟨fun g hg => (h2 g hg).1, ⟨fun g hg he => (h2 g hg).2 he, h3⟩, h1, h4⟩
+      · rintro ⟨h1, ⟨h2, h3⟩, h4, h5⟩
+        exact ⟨h4, fun g hg => ⟨h1 g hg, fun he => h2 g hg he⟩, h3, h5⟩
+
+
+
+/-! ## Variables: usages inside one value (TypeInfo's expected types of nested values) -/
+
+@[simp] theorem VarAcc.errs_append (a b : VarAcc) : (a ++ b).errs = a.errs ++ b.errs := rfl
+@[simp] theorem VarAcc.encountered_append (a b : VarAcc) : (a ++ b).encountered = a.encountered ++ b.encountered := rfl
+@[simp] theorem VarAcc.spreads_append (a b : VarAcc) : (a ++ b).spreads = a.spreads ++ b.spreads := rfl
+@[simp] theorem VarAcc.errs_empty : ({} : VarAcc).errs = [] := rfl
+@[simp] theorem VarAcc.encountered_empty : ({} : VarAcc).encountered = [] := rfl
+@[simp] theorem VarAcc.spreads_empty : ({} : VarAcc).spreads = [] := rfl
+
+/-- A `null` default on a non-null input field / directive argument does not occur (it would make
+    the type system itself inconsistent); TypeInfo stores `schema.Null` defaults of these as `nil`. -/
+def defaultOkDef (d : InputDef) : Bool := !(d.dflt == .null && d.type.isNonNull)
+
+def Schema.wfDefaults (S : Schema) : Bool :=
+  S.types.all (fun t => match t.kind with
+                        | .input fs => fs.all defaultOkDef
+                        | _ => true) &&
+  S.directives.all (fun d => d.args.all defaultOkDef)
+
+/-- What the model does for one variable usage. -/
+def usageErrs (S : Schema) (vars : List VarDef) (u : Usage) : List Err :=
+  match vars.find? (fun vd => vd.name = u.name) with
+  | none => [newError u.pos "undefined variable"]
+  | some vd => validateVariableUsage S vd u.pos { exp := u.expected, locDefault := u.locDefault }
+
+/-- The model's context and the specification's (expected type, location default) agree up to the
+    location default of positions that are not non-null (where it is never looked at). -/
+def CtxRel (c : VCtx) (t : Option TRef) (ld : Bool) : Prop :=
+  c.exp = t ∧ ∀ inner, t = some (.nonNull inner) → c.locDefault = ld
+
+theorem validateVariableUsage_ctx (S : Schema) (vd : VarDef) (p : Pos) {c : VCtx} {t : Option TRef} {ld : Bool}
+    (h : CtxRel c t ld) :
+    validateVariableUsage S vd p c = validateVariableUsage S vd p { exp := t, locDefault := ld } := by
+  obtain ⟨he, hl⟩ := h
+  unfold validateVariableUsage
+  simp only [he]
+  cases Model.schemaType S vd.type with
+  | none => rfl
+  | some vt =>
+    cases t with
+    | none => rfl
+    | some lt =>
+      cases lt with
+      | nonNull inner => simp only [hl inner rfl]
+      | named n => rfl
+      | list x => rfl
+
+theorem itemExpected_eq (t : Option TRef) : Model.itemExpected t = Spec.itemType t := rfl
+theorem objectFields_eq (S : Schema) (t : Option TRef) : Model.objectFields S t = Spec.objectTarget S t := rfl
+
+theorem inputCtx_rel (defs : Option (List InputDef)) (n : String)
+    (hd : ∀ ds, defs = some ds → ∀ d ∈ ds, defaultOkDef d = true) :
+    CtxRel (inputCtx defs n)
+      (match defs.bind (findInput · n) with
+       | some d => some d.type
+       | none => none)
+      (match defs.bind (findInput · n) with
+       | some d => d.dflt != .none
+       | none => false) := by
+  unfold inputCtx CtxRel
+  cases hb : defs.bind (findInput · n) with
+  | none => simp [noCtx]
+  | some d =>
+    simp only [true_and]
+    intro inner hi
+    simp only [Option.some.injEq] at hi
+    cases defs with
+    | none => simp at hb
+    | some ds =>
+      simp only [Option.bind_some] at hb
+      have hmem : d ∈ ds := by
+        unfold findInput at hb
+        exact List.mem_of_find?_eq_some hb
+      have := hd ds rfl d hmem
+      unfold defaultOkDef at this
+      cases hdf : d.dflt <;> simp [hdf, hi, TRef.isNonNull] at this ⊢
+
+mutual
+theorem varsValue_errs (S : Schema) (hw : Schema.wfDefaults S = true) (vars : List VarDef) :
+    ∀ (v : Value) (c : VCtx) (t : Option TRef) (ld : Bool), CtxRel c t ld →
+    (varsValue S vars c v).errs = (Spec.usagesValue S t ld v).flatMap (usageErrs S vars)
+  | .var n p, c, t, ld, h => by
+    unfold varsValue Spec.usagesValue usageErrs
+    simp only [List.flatMap_cons, List.flatMap_nil, List.append_nil]
+    cases vars.find? (fun vd => vd.name = n) with
+    | none => rfl
+    | some vd => exact validateVariableUsage_ctx S vd p h
+  | .list items p, c, t, ld, h => by
+    unfold varsValue Spec.usagesValue
+    rw [h.1, itemExpected_eq]
+    exact varsItems_errs S hw vars items (Spec.itemType t)
+  | .obj fields p, c, t, ld, h => by
+    unfold varsValue Spec.usagesValue
+    rw [h.1, objectFields_eq]
+    exact varsFields_errs S hw vars fields (Spec.objectTarget S t) (by
+      intro ds hds d hd
+      -- the definitions come from an input object type of the schema
+      unfold Spec.objectTarget at hds
+      cases t with
+      | none => simp at hds
+      | some tt =>
+        simp only at hds
+        cases hk : Spec.kindOf S tt.base with
+        | none => simp [hk] at hds
+        | some k =>
+          cases k with
+          | input fs =>
+            simp only [hk, Option.some.injEq] at hds
+            subst hds
+            unfold Spec.kindOf at hk
+            cases hf : S.find tt.base with
+            | none => simp [hf] at hk
+            | some td =>
+              simp only [hf, Option.map_some, Option.some.injEq] at hk
+              have hmem := find_mem hf
+              unfold Schema.wfDefaults at hw
+              simp only [Bool.and_eq_true, List.all_eq_true] at hw
+              have := hw.1 td hmem
+              rw [hk] at this
+              simp only [List.all_eq_true] at this
+              exact this d hd
+          | scalar => simp [hk] at hds
+          | object => simp [hk] at hds
+          | interface => simp [hk] at hds
+          | union => simp [hk] at hds
+          | enum => simp [hk] at hds)
+  | .int _ _, c, t, ld, h => by simp [varsValue, Spec.usagesValue]
+  | .float _ _, c, t, ld, h => by simp [varsValue, Spec.usagesValue]
+  | .str _ _, c, t, ld, h => by simp [varsValue, Spec.usagesValue]
+  | .bool _ _, c, t, ld, h => by simp [varsValue, Spec.usagesValue]
+  | .null _, c, t, ld, h => by simp [varsValue, Spec.usagesValue]
+  | .enum _ _, c, t, ld, h => by simp [varsValue, Spec.usagesValue]
+theorem varsItems_errs (S : Schema) (hw : Schema.wfDefaults S = true) (vars : List VarDef) :
+    ∀ (items : List Value) (t : Option TRef),
+    (varsItems S vars t items).errs = (Spec.usagesItems S t items).flatMap (usageErrs S vars)
+  | [], t => by simp [varsItems, Spec.usagesItems]
+  | v :: rest, t => by
+    simp only [varsItems, Spec.usagesItems, VarAcc.errs_append, List.flatMap_append]
+    rw [varsValue_errs S hw vars v { exp := t, locDefault := false } t false ⟨rfl, fun _ _ => rfl⟩,
+      varsItems_errs S hw vars rest t]
+theorem varsFields_errs (S : Schema) (hw : Schema.wfDefaults S = true) (vars : List VarDef) :
+    ∀ (fields : List ObjField) (defs : Option (List InputDef)),
+    (∀ ds, defs = some ds → ∀ d ∈ ds, defaultOkDef d = true) →
+    (varsFields S vars defs fields).errs = (Spec.usagesFields S defs fields).flatMap (usageErrs S vars)
+  | [], defs, _ => by simp [varsFields, Spec.usagesFields]
+  | .mk n p v :: rest, defs, hd => by
+    simp only [varsFields, Spec.usagesFields, VarAcc.errs_append, List.flatMap_append]
+    rw [varsFields_errs S hw vars rest defs hd]
+    congr 1
+    have hrel := inputCtx_rel defs n hd
+    cases hb : defs.bind (findInput · n) with
+    | none =>
+      simp only [hb] at hrel
+      exact varsValue_errs S hw vars v _ none false hrel
+    | some d =>
+      simp only [hb] at hrel
+      exact varsValue_errs S hw vars v _ (some d.type) (d.dflt != .none) hrel
+end
+
+
+mutual
+theorem varsValue_enc (S : Schema) (vars : List VarDef) :
+    ∀ (v : Value) (c : VCtx) (t : Option TRef) (ld : Bool),
+    (varsValue S vars c v).encountered = (Spec.usagesValue S t ld v).map (·.name)
+  | .var n p, c, t, ld => by
+    unfold varsValue Spec.usagesValue
+    cases vars.find? (fun vd => vd.name = n) <;> rfl
+  | .list items p, c, t, ld => by
+    unfold varsValue Spec.usagesValue
+    exact varsItems_enc S vars items _ _
+  | .obj fields p, c, t, ld => by
+    unfold varsValue Spec.usagesValue
+    exact varsFields_enc S vars fields _ _
+  | .int _ _, c, t, ld => by simp [varsValue, Spec.usagesValue]
+  | .float _ _, c, t, ld => by simp [varsValue, Spec.usagesValue]
+  | .str _ _, c, t, ld => by simp [varsValue, Spec.usagesValue]
+  | .bool _ _, c, t, ld => by simp [varsValue, Spec.usagesValue]
+  | .null _, c, t, ld => by simp [varsValue, Spec.usagesValue]
+  | .enum _ _, c, t, ld => by simp [varsValue, Spec.usagesValue]
+theorem varsItems_enc (S : Schema) (vars : List VarDef) :
+    ∀ (items : List Value) (t t' : Option TRef),
+    (varsItems S vars t items).encountered = (Spec.usagesItems S t' items).map (·.name)
+  | [], t, t' => by simp [varsItems, Spec.usagesItems]
+  | v :: rest, t, t' => by
+    simp only [varsItems, Spec.usagesItems, VarAcc.encountered_append, List.map_append]
+    rw [varsValue_enc S vars v _ t' false, varsItems_enc S vars rest t t']
+theorem varsFields_enc (S : Schema) (vars : List VarDef) :
+    ∀ (fields : List ObjField) (defs defs' : Option (List InputDef)),
+    (varsFields S vars defs fields).encountered = (Spec.usagesFields S defs' fields).map (·.name)
+  | [], defs, defs' => by simp [varsFields, Spec.usagesFields]
+  | .mk n p v :: rest, defs, defs' => by
+    simp only [varsFields, Spec.usagesFields, VarAcc.encountered_append, List.map_append]
+    rw [varsFields_enc S vars rest defs defs']
+    congr 1
+    cases defs'.bind (findInput · n) with
+    | none => exact varsValue_enc S vars v _ none false
+    | some d => exact varsValue_enc S vars v _ (some d.type) (d.dflt != .none)
+end
+
+mutual
+theorem varsValue_spreads (S : Schema) (vars : List VarDef) :
+    ∀ (v : Value) (c : VCtx), (varsValue S vars c v).spreads = []
+  | .var n p, c => by
+    unfold varsValue
+    cases vars.find? (fun vd => vd.name = n) <;> rfl
+  | .list items p, c => by unfold varsValue; exact varsItems_spreads S vars items _
+  | .obj fields p, c => by unfold varsValue; exact varsFields_spreads S vars fields _
+  | .int _ _, c => by simp [varsValue]
+  | .float _ _, c => by simp [varsValue]
+  | .str _ _, c => by simp [varsValue]
+  | .bool _ _, c => by simp [varsValue]
+  | .null _, c => by simp [varsValue]
+  | .enum _ _, c => by simp [varsValue]
+theorem varsItems_spreads (S : Schema) (vars : List VarDef) :
+    ∀ (items : List Value) (t : Option TRef), (varsItems S vars t items).spreads = []
+  | [], t => by simp [varsItems]
+  | v :: rest, t => by
+    simp only [varsItems, VarAcc.spreads_append, varsValue_spreads S vars v _, varsItems_spreads S vars rest t,
+      List.append_nil]
+theorem varsFields_spreads (S : Schema) (vars : List VarDef) :
+    ∀ (fields : List ObjField) (defs : Option (List InputDef)), (varsFields S vars defs fields).spreads = []
+  | [], defs => by simp [varsFields]
+  | .mk n p v :: rest, defs => by
+    simp only [varsFields, VarAcc.spreads_append, varsValue_spreads S vars v _, varsFields_spreads S vars rest defs,
+      List.append_nil]
+end
+
+/-! ### argument lists, directive lists -/
+
+theorem dirDefs_ok {S : Schema} (hw : Schema.wfDefaults S = true) (n : String) :
+    ∀ ds, (S.findDirective n).map (·.args) = some ds → ∀ d ∈ ds, defaultOkDef d = true := by
+  intro ds hds d hd
+  cases hf : S.findDirective n with
+  | none => simp [hf] at hds
+  | some dd =>
+    simp only [hf, Option.map_some, Option.some.injEq] at hds
+    subst hds
+    unfold Schema.wfDefaults at hw
+    simp only [Bool.and_eq_true, List.all_eq_true] at hw
+    have hmem : dd ∈ S.directives := by
+      unfold Schema.findDirective at hf
+      exact List.mem_of_find?_eq_some hf
+    exact hw.2 dd hmem d hd
+
+theorem fieldArgCtx_rel (defs : Option (List InputDef)) (n : String) :
+    CtxRel (fieldArgCtx defs n)
+      (match defs.bind (findInput · n) with
+       | some d => some d.type
+       | none => none)
+      (match defs.bind (findInput · n) with
+       | some d => d.dflt != .none
+       | none => false) := by
+  unfold fieldArgCtx CtxRel
+  cases defs.bind (findInput · n) with
+  | none => simp [noCtx]
+  | some d => simp
+
+/-- Arguments of a directive (or of anything whose contexts come from `inputCtx`). -/
+theorem varsArgs_input (S : Schema) (hw : Schema.wfDefaults S = true) (vars : List VarDef)
+    (defs : Option (List InputDef)) (hd : ∀ ds, defs = some ds → ∀ d ∈ ds, defaultOkDef d = true)
+    (args : List Argument) :
+    (varsArgs S vars (inputCtx defs) args).errs = (Spec.usagesArgs S defs args).flatMap (usageErrs S vars) ∧
+    (varsArgs S vars (inputCtx defs) args).encountered = (Spec.usagesArgs S defs args).map (·.name) ∧
+    (varsArgs S vars (inputCtx defs) args).spreads = [] := by
+  unfold Spec.usagesArgs
+  induction args with
+  | nil => simp [varsArgs]
+  | cons a rest ih =>
+    obtain ⟨i1, i2, i3⟩ := ih
+    simp only [varsArgs, VarAcc.errs_append, VarAcc.encountered_append, VarAcc.spreads_append, List.flatMap_cons,
+      List.flatMap_append, List.map_append, i1, i2, i3, varsValue_spreads, List.append_nil]
+    have hrel := inputCtx_rel defs a.name hd
+    cases hb : defs.bind (findInput · a.name) with
+    | none =>
+      simp only [hb] at hrel
+      exact ⟨by rw [varsValue_errs S hw vars a.value _ none false hrel],
+        by rw [varsValue_enc S vars a.value _ none false], trivial⟩
+    | some d =>
+      simp only [hb] at hrel
+      exact ⟨by rw [varsValue_errs S hw vars a.value _ (some d.type) (d.dflt != .none) hrel],
+        by rw [varsValue_enc S vars a.value _ (some d.type) (d.dflt != .none)], trivial⟩
+
+/-- Arguments of a field. -/
+theorem varsArgs_field (S : Schema) (hw : Schema.wfDefaults S = true) (vars : List VarDef)
+    (defs : Option (List InputDef)) (args : List Argument) :
+    (varsArgs S vars (fieldArgCtx defs) args).errs = (Spec.usagesArgs S defs args).flatMap (usageErrs S vars) ∧
+    (varsArgs S vars (fieldArgCtx defs) args).encountered = (Spec.usagesArgs S defs args).map (·.name) ∧
+    (varsArgs S vars (fieldArgCtx defs) args).spreads = [] := by
+  unfold Spec.usagesArgs
+  induction args with
+  | nil => simp [varsArgs]
+  | cons a rest ih =>
+    obtain ⟨i1, i2, i3⟩ := ih
+    simp only [varsArgs, VarAcc.errs_append, VarAcc.encountered_append, VarAcc.spreads_append, List.flatMap_cons,
+      List.flatMap_append, List.map_append, i1, i2, i3, varsValue_spreads, List.append_nil]
+    have hrel := fieldArgCtx_rel defs a.name
+    cases hb : defs.bind (findInput · a.name) with
+    | none =>
+      simp only [hb] at hrel
+      exact ⟨by rw [varsValue_errs S hw vars a.value _ none false hrel],
+        by rw [varsValue_enc S vars a.value _ none false], trivial⟩
+    | some d =>
+      simp only [hb] at hrel
+      exact ⟨by rw [varsValue_errs S hw vars a.value _ (some d.type) (d.dflt != .none) hrel],
+        by rw [varsValue_enc S vars a.value _ (some d.type) (d.dflt != .none)], trivial⟩
+
+theorem varsDirectives_spec (S : Schema) (hw : Schema.wfDefaults S = true) (vars : List VarDef)
+    (dirs : List Directive) :
+    (varsDirectives S vars dirs).errs = (Spec.usagesDirs S dirs).flatMap (usageErrs S vars) ∧
+    (varsDirectives S vars dirs).encountered = (Spec.usagesDirs S dirs).map (·.name) ∧
+    (varsDirectives S vars dirs).spreads = [] := by
+  unfold Spec.usagesDirs
+  induction dirs with
+  | nil => simp [varsDirectives]
+  | cons d rest ih =>
+    obtain ⟨i1, i2, i3⟩ := ih
+    obtain ⟨a1, a2, a3⟩ := varsArgs_input S hw vars ((S.findDirective d.name).map (·.args)) (dirDefs_ok hw d.name) d.args
+    simp only [varsDirectives, VarAcc.errs_append, VarAcc.encountered_append, VarAcc.spreads_append,
+      List.flatMap_cons, List.flatMap_append, List.map_append, i1, i2, i3, a1, a2, a3, List.append_nil]
+    exact ⟨trivial, trivial, trivial⟩
+
+
+/-! ### one usage: the model's check against §5.8.3 and §5.8.5 -/
+
+theorem areTypesCompatible_eq (v l : TRef) : Model.areTypesCompatible v l = Spec.typesCompatible v l := by
+  induction v generalizing l with
+  | named a => cases l <;> simp [Model.areTypesCompatible, Spec.typesCompatible]
+  | list v ih => cases l <;> simp [Model.areTypesCompatible, Spec.typesCompatible, ih]
+  | nonNull v ih => cases l <;> simp [Model.areTypesCompatible, Spec.typesCompatible, ih]
+
+theorem primaryFree_ite_not (b : Bool) (e : Err) (he : e.secondary = false) :
+    primaryFree (if !b then [e] else []) = b := by
+  cases b <;> simp [primaryFree, he]
+
+theorem usageErrs_ok (S : Schema) (vars : List VarDef) (u : Usage) :
+    primaryFree (usageErrs S vars u) = (Spec.usageDefinedIn vars u && Spec.usageAllowedIn S vars u) := by
+  unfold usageErrs Spec.usageDefinedIn Spec.usageAllowedIn
+  cases hf : vars.find? (fun vd => vd.name = u.name) with
+  | none =>
+    have : (vars.any fun vd => vd.name = u.name) = false := by
+      rw [List.find?_eq_none] at hf
+      simp only [decide_eq_true_eq] at hf
+      simp only [List.any_eq_false, decide_eq_true_eq]
+      exact hf
+    simp [this, primaryFree, newError]
+  | some vd =>
+    have hmem := List.mem_of_find?_eq_some hf
+    have hp := List.find?_some hf
+    have : (vars.any fun vd => vd.name = u.name) = true := by
+      simp only [List.any_eq_true]; exact ⟨vd, hmem, hp⟩
+    simp only [this, Bool.true_and]
+    unfold validateVariableUsage Spec.usageAllowed
+    simp only [schemaType_eq_resolveType, areTypesCompatible_eq]
+    cases Spec.resolveType S vd.type with
+    | none => simp [primaryFree, newSecondaryError]
+    | some vt =>
+      cases hu : u.expected with
+      | none => simp [primaryFree, newSecondaryError]
+      | some lt =>
+        cases lt with
+        | named n => exact primaryFree_ite_not _ _ rfl
+        | list x => exact primaryFree_ite_not _ _ rfl
+        | nonNull inner =>
+          simp only
+          cases hnn : vt.isNonNull with
+          | true =>
+            simp only [Bool.not_true, Bool.false_eq_true, if_false, if_true]
+            exact primaryFree_ite_not _ _ rfl
+          | false =>
+            simp only [Bool.not_false, if_true, Bool.false_eq_true, if_false]
+            cases hdf : (!(match vd.dflt with
+                | some v => !v.isNull
+                | none => false) && !u.locDefault) with
+            | true => simp [primaryFree, newError]
+            | false =>
+              simp only [Bool.false_eq_true, if_false]
+              exact primaryFree_ite_not _ _ rfl
+
+
+/-! ### the traversal -/
+
+def varsOcc (S : Schema) (vars : List VarDef) : Occ → VarAcc
+  | .field scope _ n _ args dirs _ =>
+    varsArgs S vars (fieldArgCtx ((Model.fieldDefinition S scope n).map (·.args))) args ++ varsDirectives S vars dirs
+  | .spread _ n _ dirs _ => ({ spreads := [n] } : VarAcc) ++ varsDirectives S vars dirs
+  | .inline _ _ dirs _ => varsDirectives S vars dirs
+
+/-- The three components of an accumulated traversal. -/
+def FlatOf (S : Schema) (vars : List VarDef) (a : VarAcc) (occs : List Occ) : Prop :=
+  a.errs = occs.flatMap (fun o => (varsOcc S vars o).errs) ∧
+  a.encountered = occs.flatMap (fun o => (varsOcc S vars o).encountered) ∧
+  a.spreads = occs.flatMap (fun o => (varsOcc S vars o).spreads)
+
+theorem FlatOf.append {S : Schema} {vars : List VarDef} {a b : VarAcc} {xs ys : List Occ}
+    (ha : FlatOf S vars a xs) (hb : FlatOf S vars b ys) : FlatOf S vars (a ++ b) (xs ++ ys) := by
+  obtain ⟨a1, a2, a3⟩ := ha
+  obtain ⟨b1, b2, b3⟩ := hb
+  exact ⟨by simp [a1, b1], by simp [a2, b2], by simp [a3, b3]⟩
+
+theorem FlatOf.single (S : Schema) (vars : List VarDef) (o : Occ) : FlatOf S vars (varsOcc S vars o) [o] := by
+  simp [FlatOf]
+
+theorem FlatOf.nil (S : Schema) (vars : List VarDef) : FlatOf S vars {} [] := by simp [FlatOf]
+
+mutual
+theorem vars_sel_flat (S : Schema) (vars : List VarDef) : ∀ (scope : Option String) (sel : Selection),
+    FlatOf S vars (varsSel S vars scope sel) (moccSel S scope sel)
+  | scope, .field al n np args dirs none => by
+    have := FlatOf.single S vars (.field scope al n np args dirs none)
+    simpa [varsSel, moccSel, varsOcc, FlatOf] using this
+  | scope, .field al n np args dirs (some ss) => by
+    have h1 := FlatOf.single S vars (.field scope al n np args dirs (some ss))
+    have h2 := vars_set_flat S vars (Model.innerScope S scope n) ss
+    have := FlatOf.append h1 h2
+    simpa [varsSel, moccSel, varsOcc, FlatOf, List.append_assoc] using this
+  | scope, .spread n np dirs p => by
+    have := FlatOf.single S vars (.spread scope n np dirs p)
+    simpa [varsSel, moccSel, varsOcc] using this
+  | scope, .inline tc dirs ss p => by
+    have h1 := FlatOf.single S vars (.inline scope tc dirs p)
+    have h2 := vars_set_flat S vars (Model.inlineScope S scope tc) ss
+    have := FlatOf.append h1 h2
+    simpa [varsSel, moccSel, varsOcc] using this
+theorem vars_set_flat (S : Schema) (vars : List VarDef) : ∀ (scope : Option String) (ss : SelSet),
+    FlatOf S vars (varsSet S vars scope ss) (moccSet S scope ss)
+  | scope, .mk sels p => by
+    simpa [varsSet, moccSet] using vars_sels_flat S vars scope sels
+theorem vars_sels_flat (S : Schema) (vars : List VarDef) : ∀ (scope : Option String) (sels : List Selection),
+    FlatOf S vars (varsSels S vars scope sels) (moccSels S scope sels)
+  | scope, [] => by simpa [varsSels, moccSels] using FlatOf.nil S vars
+  | scope, s :: rest => by
+    simpa [varsSels, moccSels] using FlatOf.append (vars_sel_flat S vars scope s) (vars_sels_flat S vars scope rest)
+end
+
+
+theorem usagesArgs_nil_defs (S : Schema) (args : List Argument) :
+    Spec.usagesArgs S (some []) args = Spec.usagesArgs S none args := by
+  unfold Spec.usagesArgs
+  simp [findInput]
+
+/-- One occurrence: the model's accumulation against the specification's usages there. -/
+theorem varsOcc_spec {S : Schema} (hwf : S.wf = true) (hw : Schema.wfDefaults S = true) (vars : List VarDef)
+    {o : Occ} (hinv : Inv S (occParent o)) (hs : scopedAt S o = true) :
+    (varsOcc S vars o).errs = (Spec.usagesOcc S o).flatMap (usageErrs S vars) ∧
+    (varsOcc S vars o).encountered = (Spec.usagesOcc S o).map (·.name) ∧
+    (varsOcc S vars o).spreads = (Spec.spreadNameOf o).toList := by
+  cases o with
+  | field parent al n np args dirs sel =>
+    obtain ⟨p, hp', hp⟩ := hinv
+    simp only [occParent] at hp'
+    subst hp'
+    simp only [scopedAt, Bool.and_eq_true, fieldDefinedAt, hp, Bool.not_true, Bool.false_or] at hs
+    have hdef := hs.1.1.1
+    have hagree := fieldDef_agree hwf hp n
+    have htn := fieldDefinition_typename hwf (some p)
+    obtain ⟨d1, d2, d3⟩ := varsDirectives_spec S hw vars dirs
+    -- the argument definitions both sides use
+    have hdefs : ∃ defs : Option (List InputDef),
+        (Model.fieldDefinition S (some p) n).map (·.args) = defs ∧
+        Spec.usagesArgs S (((some p).bind (Spec.fieldDef? S · n)).map (·.args)) args = Spec.usagesArgs S defs args := by
+      by_cases hn : n = "__typename"
+      · subst hn
+        simp only [if_true] at hagree
+        refine ⟨none, by simp [htn], ?_⟩
+        simp only [Option.bind_some, hagree, Option.map_some, Spec.typenameField]
+        exact usagesArgs_nil_defs S args
+      · simp only [hn, if_false] at hagree
+        exact ⟨_, rfl, by simp [hagree]⟩
+    obtain ⟨defs, hm, hsp⟩ := hdefs
+    obtain ⟨a1, a2, a3⟩ := varsArgs_field S hw vars defs args
+    simp only [varsOcc, Spec.usagesOcc, hm, hsp, VarAcc.errs_append, VarAcc.encountered_append,
+      VarAcc.spreads_append, a1, a2, a3, d1, d2, d3, List.flatMap_append, List.map_append, Spec.spreadNameOf]
+    exact ⟨trivial, trivial, rfl⟩
+  | spread parent n np dirs p =>
+    obtain ⟨d1, d2, d3⟩ := varsDirectives_spec S hw vars dirs
+    simp only [varsOcc, Spec.usagesOcc, VarAcc.errs_append, VarAcc.encountered_append, VarAcc.spreads_append,
+      d1, d2, d3, Spec.spreadNameOf]
+    exact ⟨by simp, by simp, by simp⟩
+  | inline parent tc dirs p =>
+    obtain ⟨d1, d2, d3⟩ := varsDirectives_spec S hw vars dirs
+    simp only [varsOcc, Spec.usagesOcc, d1, d2, d3, Spec.spreadNameOf]
+    exact ⟨trivial, trivial, rfl⟩
+
+mutual
+theorem spreadsInSel_eq : ∀ (sel : Selection), Spec.spreadsInSel sel = Model.spreadNamesSel sel
+  | .field _ _ _ _ _ none => by simp [Spec.spreadsInSel, Model.spreadNamesSel]
+  | .field _ _ _ _ _ (some ss) => by simp [Spec.spreadsInSel, Model.spreadNamesSel, spreadsInSet_eq ss]
+  | .spread _ _ _ _ => by simp [Spec.spreadsInSel, Model.spreadNamesSel]
+  | .inline _ _ ss _ => by simp [Spec.spreadsInSel, Model.spreadNamesSel, spreadsInSet_eq ss]
+theorem spreadsInSet_eq : ∀ (ss : SelSet), Spec.spreadsInSet ss = Model.spreadNamesSet ss
+  | .mk sels _ => by simp [Spec.spreadsInSet, Model.spreadNamesSet, spreadsInSels_eq sels]
+theorem spreadsInSels_eq : ∀ (sels : List Selection), Spec.spreadsInSels sels = Model.spreadNamesSels sels
+  | [] => by simp [Spec.spreadsInSels, Model.spreadNamesSels]
+  | s :: rest => by simp [Spec.spreadsInSels, Model.spreadNamesSels, spreadsInSel_eq s, spreadsInSels_eq rest]
+end
+
+theorem flatMap_congr_mem {α β : Type} (xs : List α) (f g : α → List β) (h : ∀ x ∈ xs, f x = g x) :
+    xs.flatMap f = xs.flatMap g := by
+  induction xs with
+  | nil => rfl
+  | cons x rest ih =>
+    simp only [List.flatMap_cons]
+    rw [h x (by simp), ih (fun y hy => h y (by simp [hy]))]
+
+theorem filterMap_toList {α β : Type} (xs : List α) (f : α → Option β) :
+    xs.flatMap (fun x => (f x).toList) = xs.filterMap f := by
+  induction xs with
+  | nil => rfl
+  | cons x rest ih =>
+    simp only [List.flatMap_cons, List.filterMap_cons, ih]
+    cases f x <;> simp
+
+/-- Usages written in the body of one definition (its directives and its selection set). -/
+def bodyUsages (S : Schema) (d : Definition) : List Usage :=
+  Spec.usagesDirs S (Spec.defDirs d) ++ (Spec.occDef S d).flatMap (Spec.usagesOcc S)
+
 end ApiFu.C04
